@@ -12,7 +12,8 @@ Token encodings (prefix form, shared by driver, model and this file)
                 | 35 SP P (TSD) | 36 any period min SP (TSW) | 37 named name n (f P)* (TSB) | 38 v (TSB schema var)
                 | 39 P (REF) | 40 (SIGNAL)
 Case lines
-  2 label has_out [out-pat] np (0 ts-pat | 1 scalar-pat)*      one overload
+  2 label has_out [out-pat] np ((0 ts-pat | 1 scalar-pat) default)*      one overload
+      default of a parameter: 0 required | 1 None default | 2 S default value of schema S (taken when the call omits it)
   3 n i*                                                        one registration order (indices into the overload list)
   4 out_required(-1|0|1) has_expected [T] ninit (store var payload)* nhints h* nargs (0 T | 1 S | 2 | 3)*    one query
       arg kinds: 0 time-series of schema T, 1 scalar value of schema S, 2 null source, 3 absent scalar (None)
@@ -33,7 +34,7 @@ NAME = "resolve"
 DRIVER_SRCS = ["resolve_driver.cpp"]
 MODEL_FAMILY = "resolve"
 MODE = "diff"
-BUDGET = {"quick": 1500, "thorough": 60000}
+BUDGET = {"quick": 1500, "thorough": 40000}
 
 KINDS = {"crash", "order_dependent", "wrong_selection", "missed_ambiguity", "false_ambiguity", "false_nomatch",
          "false_match", "rank_not_min", "tied_set", "unsound_match", "output_not_substitution", "bind_accepts_rebind",
@@ -355,6 +356,7 @@ def decode_case(case):
                     raise Bad()
                 n, i = _count(l, i)
                 ps = []
+                ds = []
                 for _ in range(n):
                     kind, i = _next(l, i)
                     if kind == 0:
@@ -365,7 +367,17 @@ def decode_case(case):
                         ps.append(("sc", p))
                     else:
                         raise Bad()
-                ovs.append((label, ho == 1, out, ps))
+                    dk, i = _next(l, i)
+                    if dk == 0:
+                        ds.append(None)
+                    elif dk == 1:
+                        ds.append(("null",) if kind == 0 else ("absent",))
+                    elif dk == 2:
+                        dv, i = dec_sty(l, i)
+                        ds.append(("sc", dv))
+                    else:
+                        raise Bad()
+                ovs.append((label, ho == 1, out, ps, ds))
             elif tag == 3:
                 n, i = _count(l, i)
                 o = []
@@ -740,24 +752,42 @@ def t_collect(sig, p, t0):
                 t_collect(sig, q, x)
 
 
+def defaults_of(ov):
+    return list(ov[4]) if len(ov) > 4 else [None] * len(ov[3])
+
+
+def normalize(ov, args):
+    """the positional call in declared parameter order with omitted trailing parameters defaulted, and the number of
+    defaults used; None when the call does not fit (too many arguments / a required parameter omitted)"""
+    ds = defaults_of(ov)
+    if len(args) > len(ds):
+        return None
+    tail = ds[len(args):]
+    if any(d is None for d in tail):
+        return None
+    return list(args) + tail, len(tail)
+
+
 def reference_match(ov, q):
     """Does the overload accept the query?  None when the query uses a feature this reference does not cover."""
-    label, has_out, outp, ps = ov
+    label, has_out, outp, ps = ov[:4]
     if q["init"] or q["hints"] or q["expected"] is not None:
         return None
+    nz = normalize(ov, q["args"])
+    if nz is None:
+        return False
+    nargs = nz[0]
     if q["oreq"] != -1 and (q["oreq"] == 1) != has_out:
         return False
-    if len(ps) != len(q["args"]):
-        return False
     sig = {}
-    for (pk, p), a in zip(ps, q["args"]):
+    for (pk, p), a in zip(ps, nargs):
         if pk == "in" and a[0] == "sc":
             return None                       # scalar -> const promotion: not covered
         if pk == "in" and a[0] == "ts":
             t_collect(sig, p, a[1])
         elif pk == "sc" and a[0] == "sc" and p[0] != "sc":
             s_collect(sig, p, a[1])
-    if not all(arg_inst(sig, p, a) for p, a in zip(ps, q["args"])):
+    if not all(arg_inst(sig, p, a) for p, a in zip(ps, nargs)):
         return False
     return not has_out or t_subst(sig, outp) is not None
 
@@ -916,10 +946,12 @@ def oracle(prop, case, impl_out):
                     continue
                 args = spec["queries"][q]["args"]
                 ok = False
-                for (label, has_out, outp, ps) in cands:
-                    if len(ps) != len(args):
+                for cand in cands:
+                    label, has_out, outp, ps = cand[:4]
+                    nz = normalize(cand, args)
+                    if nz is None:
                         continue
-                    if all(arg_inst(sig, p, a) for p, a in zip(ps, args)):
+                    if all(arg_inst(sig, p, a) for p, a in zip(ps, nz[0])):
                         ok = True
                         if has_out:
                             want = t_subst(sig, outp)
@@ -986,6 +1018,8 @@ def findings(case, impl_out):
             for i in order:
                 ov = spec["ovs"][i]
                 if ov[0] == r["label"] or out["solo"].get((q, i), (1, 0))[0] != 0 or len(ov[3]) != len(sps):
+                    continue
+                if defaults_of(ov) != defaults_of(sel[0]):
                     continue
                 diff = [k for k in range(len(sps)) if sps[k] != ov[3][k]]
                 if len(diff) != 1:
@@ -1083,7 +1117,10 @@ def stats(case, impl_out):
                         seen.add("named_ptsb")
                 for x in p:
                     walk(x)
-        for (_, ho, outp, ps) in spec["ovs"]:
+        for ov_ in spec["ovs"]:
+            _, ho, outp, ps = ov_[:4]
+            if any(d is not None for d in defaults_of(ov_)):
+                seen.add("defaulted_parameter")
             for _, pp in ps:
                 walk(pp)
             vs = [x for _, pp in ps for x in _all_vars(pp)]
@@ -1381,8 +1418,8 @@ def gen_overload(rng, label, seed_args, kinds, want_out):
 
 def specialise(rng, ov, seed_args):
     """a strictly more specific sibling: one variable occurrence replaced by what the seed has there (critical pair)"""
-    label, has_out, out, ps = ov
-    if len(ps) != len(seed_args):
+    label, has_out, out, ps = ov[:4]
+    if len(ps) != len(seed_args) or len(ov) > 4:
         return None
     idx = [i for i, (pk, p) in enumerate(ps) if seed_args[i][0] in ("ts", "sc")]
     if not idx:
@@ -1404,7 +1441,8 @@ def specialise(rng, ov, seed_args):
 
 def rename_vars(rng, ov):
     """same shape, variables renamed: ties in rank with the original"""
-    label, has_out, out, ps = ov
+    label, has_out, out, ps = ov[:4]
+    dflt = defaults_of(ov)
     perm = dict(zip(range(0, 8), rng.sample(range(0, 8), 8)))
 
     def rs(p):
@@ -1442,7 +1480,38 @@ def rename_vars(rng, ov):
             return ("pref", rt(p[1]))
         return p
 
-    return (label, has_out, rt(out) if out is not None else None, [(pk, rt(p) if pk == "in" else rs(p)) for pk, p in ps])
+    return (label, has_out, rt(out) if out is not None else None, [(pk, rt(p) if pk == "in" else rs(p)) for pk, p in ps], dflt)
+
+
+def _default_param(rng):
+    """one defaulted trailing parameter: (param, default)"""
+    r = rng.random()
+    a = rng.choice([("a", 1), ("a", 1), ("a", 3), ("a", 2), ("a", 0)])
+    if r < 0.6:
+        return ("sc", ("sc", a)), ("sc", a)                       # k: int = 1
+    if r < 0.7:
+        return ("sc", ("sc", a)), ("sc", rng.choice([("a", 4), ("a", 0), ("a", 3)]))   # default coerced (or not) to the declared type
+    if r < 0.8:
+        return ("sc", ("sv", rng.randint(1, 5), ())), ("sc", a)   # k: ~T = value
+    if r < 0.9:
+        return ("sc", ("sv", rng.randint(1, 5), ())), ("absent",)  # k: ~T = None
+    if r < 0.95:
+        return ("in", ("v", rng.randint(1, 5), ())), ("null",)     # ts: ~X = None  (unwired input)
+    return ("in", ("pts", ("sc", a))), ("sc", a)                   # ts: TS[int] = 1 (const promotion)
+
+
+def with_defaults(rng, ov, n_extra, default_last=False):
+    """ov plus n_extra trailing defaulted parameters (optionally also defaulting its last own parameter)"""
+    label, has_out, out, ps = ov[:4]
+    ds = defaults_of(ov)
+    ps = list(ps)
+    if default_last and ps and ds[-1] is None and ps[-1][0] == "sc" and ps[-1][1][0] == "sc":
+        ds[-1] = ("sc", ps[-1][1][1])
+    for _ in range(n_extra):
+        pr, d = _default_param(rng)
+        ps.append(pr)
+        ds.append(d)
+    return (label, has_out, out, ps, ds)
 
 
 def gen_arg(ctx, kind):
@@ -1474,6 +1543,10 @@ def mutate_arg(ctx, a, kind):
     rng = ctx.rng
     if a[0] == "ts":
         t = a[1]
+        if t[0] == "tsb" and t[1] != 0 and rng.random() < 0.5:
+            return ("ts", ("tsb", 0, t[2]))          # the un-named twin of a named bundle: equivalent, not identical
+        if t[0] == "ref" and t[1][0] == "tsb" and t[1][1] != 0 and rng.random() < 0.5:
+            return ("ts", ("ref", ("tsb", 0, t[1][2])))
         if t[0] == "tsb" and t[1] == 0 and rng.random() < 0.5:
             fs = list(t[2])
             if len(fs) >= 2 and rng.random() < 0.5:
@@ -1529,13 +1602,14 @@ def enc_arg(a):
 
 
 def enc_overload(ov):
-    label, has_out, out, ps = ov
+    label, has_out, out, ps = ov[:4]
     l = [2, label, 1 if has_out else 0]
     if has_out:
         l += enc_tpat(out)
     l.append(len(ps))
-    for pk, p in ps:
+    for (pk, p), d in zip(ps, defaults_of(ov)):
         l += [0] + enc_tpat(p) if pk == "in" else [1] + enc_spat(p)
+        l += [0] if d is None else [1] if d[0] in ("null", "absent") else [2] + enc_sty(d[1])
     return l
 
 
@@ -1566,7 +1640,7 @@ def gen_script(ctx):
 
 def simple_subst_guess(rng, ov, args):
     """a plausible requested output for a query: substitute by a throw-away reference match"""
-    label, has_out, out, ps = ov
+    label, has_out, out, ps = ov[:4]
     if not has_out:
         return None
     ts_args = [a[1] for a in args if a[0] == "ts"]
@@ -1616,6 +1690,25 @@ def gen(rng, tier, prop):
     with_out = rng.random() < 0.55
     ovs = []
     label = 0
+    twin = None
+    if arity >= 2 and kinds[0] == "ts" and kinds[1] == "ts" and rng.random() < 0.12:
+        # repeated variable against nominally different, structurally identical bundles: f(~T, ~T) must not accept
+        # (named B, un-named twin of B); a TSB schema variable and a concrete leaf (both compare structurally) may
+        nm = len(ctx.named) + 1
+        fs = tuple((f + 1, ("ts", gen_atom(rng))) for f in range(rng.choice([1, 2])))
+        ctx.named[nm] = fs
+        b = ("tsb", nm, fs)
+        for sd in seeds:
+            sd[0], sd[1] = ("ts", b), ("ts", b)
+        twin = (("ts", b), ("ts", ("tsb", 0, fs)))
+        rest = [("in", gen_tpat(OvCtx(rng), sd_a[1])) if sd_a[0] == "ts" else ("sc", ("sv", 9, ())) for sd_a in seeds[0][2:]]
+        v = rng.randint(1, 5)
+        ovs = [(1, False, None, [("in", ("v", v, ())), ("in", ("v", v, ()))] + rest),
+               (2, False, None, [("in", ("bv", v)), ("in", ("bv", v))] + rest)]
+        if rng.random() < 0.5:
+            ovs.append((3, False, None, [("in", ("c", b)), ("in", ("v", v, ()))] + rest))
+        label = len(ovs)
+        with_out = False
     # critical pair for scalar parameters: a bare scalar variable against a structured pattern of the same position
     comp = [(si, i) for si, sd in enumerate(seeds) for i, a in enumerate(sd) if a[0] == "sc" and a[1][0] != "a"]
     if comp and rng.random() < 0.5:
@@ -1660,9 +1753,17 @@ def gen(rng, tier, prop):
             k2 = kinds + ["ts"] if rng.random() < 0.5 or arity == 1 else kinds[:-1]      # arity mismatch
             s2 = (seed + [gen_arg(ctx, "ts")])[:len(k2)]
             ov = gen_overload(rng, label, s2, k2, with_out)
+        elif ovs and r < 0.58:
+            # defaults ladder: a sibling of an earlier overload with 1-3 more defaulted trailing parameters; each default
+            # it falls back on costs 1, so for a call that omits them the shorter sibling must win - in every order
+            base = rng.choice(ovs)
+            ov = with_defaults(rng, (label,) + tuple(base[1:]), rng.choice([1, 1, 2, 3]), rng.random() < 0.3)
         else:
             ov = gen_overload(rng, label, seed, kinds, with_out and rng.random() < 0.9)
+            if rng.random() < 0.2:
+                ov = with_defaults(rng, ov, rng.choice([1, 1, 2]), rng.random() < 0.3)
         ovs.append(ov)
+    max_params = max(len(o[3]) for o in ovs)
     queries = []
     nq = rng.randint(1, 6)
     for _ in range(nq):
@@ -1676,8 +1777,17 @@ def gen(rng, tier, prop):
             args[j] = mutate_arg(ctx, args[j], kinds[j])
         else:
             args = [gen_arg(ctx, k) for k in kinds]
+        if twin is not None and rng.random() < 0.6:
+            args = list(base)
+            i0, i1 = (0, 1) if rng.random() < 0.5 else (1, 0)
+            args[i0], args[i1] = twin[0], twin[1]
         if rng.random() < 0.04:
             args = args[:-1] if rng.random() < 0.5 and len(args) > 1 else args + [gen_arg(ctx, "ts")]
+        elif max_params > len(args) and rng.random() < 0.4:
+            # supply some of the defaulted trailing parameters explicitly
+            for _ in range(rng.randint(1, max_params - len(args))):
+                args = args + [("sc", rng.choice([("a", 1), ("a", 1), ("a", 3), ("a", 2), ("a", 0), ("a", 4)])) if rng.random() < 0.9
+                               else gen_arg(ctx, "scalar")]
         q = {"oreq": -1, "expected": None, "init": [], "hints": [], "args": args}
         r = rng.random()
         if r < 0.10:
@@ -1697,11 +1807,11 @@ def gen(rng, tier, prop):
         queries.append(q)
     n = len(ovs)
     ident = list(range(n))
-    if tier == "thorough" and (n <= 4 or (n == 5 and len(queries) <= 2)):
-        orders = [list(p) for p in itertools.permutations(ident)]
+    if n <= 3 or (tier == "thorough" and (n <= 4 or (n == 5 and len(queries) <= 2))):
+        orders = [list(p) for p in itertools.permutations(ident)]      # every registration order
     else:
         orders = [ident, ident[::-1]]
-        for _ in range(1 if tier == "quick" else 10):
+        for _ in range(3 if tier == "quick" else 10):
             p = ident[:]
             rng.shuffle(p)
             orders.append(p)
@@ -1729,7 +1839,8 @@ def _size_vars_of(ovs):
         for x in p:
             if isinstance(x, tuple):
                 walk(x)
-    for (_, _, out, ps) in ovs:
+    for ov_ in ovs:
+        out, ps = ov_[2], ov_[3]
         walk(out)
         for _, p in ps:
             walk(p)
@@ -1782,7 +1893,8 @@ def shrink(case):
             for l in case:
                 if l[0] == 2:
                     o = next(it_ov)
-                    c.append(enc_overload((o[0], o[1], o[2], o[3][:pos] + o[3][pos + 1:])))
+                    dd = defaults_of(o)
+                    c.append(enc_overload((o[0], o[1], o[2], o[3][:pos] + o[3][pos + 1:], dd[:pos] + dd[pos + 1:])))
                 elif l[0] == 4:
                     q = dict(next(it_q))
                     q["args"] = q["args"][:pos] + q["args"][pos + 1:]
@@ -1797,7 +1909,7 @@ def shrink(case):
         for l in case:
             if l[0] == 2:
                 o = next(it_ov)
-                c.append(enc_overload((o[0], False, None, o[3])))
+                c.append(enc_overload((o[0], False, None, o[3], defaults_of(o))))
             elif l[0] == 4:
                 c.append(l)
             else:
@@ -1836,3 +1948,19 @@ def enumerate_cases(prop):
             ovs = [(1, False, None, [("in", a1), ("in", a2)]), (2, False, None, [("in", b1), ("in", b2)])]
             qs = [{"oreq": -1, "expected": None, "init": [], "hints": [], "args": [("ts", x), ("ts", y)]} for x, y in _ENUM_A2]
             yield [enc_overload(o) for o in ovs] + [[3, 2, 0, 1], [3, 2, 1, 0]] + [enc_query(q) for q in qs]
+    # families of three candidates with 0-3 defaulted trailing scalar parameters, in all six registration orders
+    dint, dstr = (("sc", ("sc", _INT)), ("sc", _INT)), (("sc", ("sc", _STR)), ("sc", _STR))
+    dvar, dnone = (("sc", ("sv", 5, ())), ("sc", _INT)), (("sc", ("sv", 5, ())), ("absent",))
+    shapes = [[], [dint], [dint, dint], [dint, dint, dint], [dstr], [dvar], [dnone], [dint, dstr]]
+    lead = [("in", ("c", _TSI)), ("in", ("pts", ("sv", 1, ())))]
+
+    def cand(label, first, extra):
+        return (label, True, ("c", _TSI), [first] + [e[0] for e in extra], [None] + [e[1] for e in extra])
+    calls = [[("ts", _TSI)], [("ts", _TSI), ("sc", _INT)], [("ts", _TSI), ("sc", _INT), ("sc", _INT)], [("ts", _TSI), ("sc", _STR)],
+             [("ts", _TSS_)], [("ts", _TSI), ("sc", _INT), ("sc", _INT), ("sc", _INT)]]
+    qs = [{"oreq": 1, "expected": None, "init": [], "hints": [], "args": a} for a in calls]
+    perms = [list(p) for p in itertools.permutations(range(3))]
+    for first in lead:
+        for trio in itertools.combinations(range(len(shapes)), 3):
+            ovs = [cand(k + 1, first, shapes[i]) for k, i in enumerate(trio)]
+            yield [enc_overload(o) for o in ovs] + [[3, 3] + o for o in perms] + [enc_query(q) for q in qs]
